@@ -5,7 +5,7 @@
    read_to_string, so it is valid UTF-8; a read failure is the `None` branch and
    never reaches this code).  Offsets are byte offsets into its UTF-8 encoding. *)
 From ASModel Require Import Base.
-Open Scope N_scope.
+Local Open Scope N_scope.
 
 Definition text := list N.
 
